@@ -16,6 +16,7 @@ LEVEL_TEXT = ("Sibling cross-check of the two interpreters on the MIR: for scan,
 LEVEL_NOTE = ("Not decided: isomorphism of the produced graphs and equality of outcomes over all programs (needs execution or a relational "
               "proof of two interpreters).  Trusted: helper renaming table (evaluate/evaluate_eager, add/add_lazy, test/test_eager).")
 LEVEL_TEXT += (" Also shared between the modes and checked in both: (E3.r) regex-capture lookup and its UndefinedRegexCapture failure; (C04.S/C04.M) strict scoped writes go to the scope node's own map, lazy scoped definitions are memoising thunks; (C04.F) in the lazy scoped store nothing is read between marking a name Forcing and Forced except the forced values themselves (a recursive definition is reported, not looped on).")
+LEVEL_TEXT += (" (E3.ctx) nested execution contexts redefine the same fields in both modes (locals, error context, a scan arm's captures) and hand everything else on; (E5.mut) both modes pass the same mutability flags; the three condition forms test the *evaluated* value (strict evaluate / lazy evaluate_eager).")
 
 
 def _report(rep, rule, f, feats, problems, ids):
